@@ -19,9 +19,11 @@ RULE = ("Hypothesis draws a small dataset (single file, or hive with _metadata a
         "equals the model dict (the library's own 'pandas' entry untouched); refpq (independent strict reader) accepts the file - "
         "exact footer length, trailing magic, nothing after it - and sees the same schema, row groups, num_rows and created_by as "
         "before; the bytes before the footer are unchanged; to_pandas() equals the original. Non-trivial: a step changed the "
-        "footer size by 1..7 bytes or shrank/grew it by >= 8 bytes (histogram in labels).")
+        "footer size by 1..7 bytes or shrank/grew it by >= 8 bytes (histogram in labels). The dict the API returns is compared with "
+        "types: a key and a value are each text when their bytes are valid UTF-8 and bytes otherwise, independently. One update in "
+        "eight carries a value that is neither text nor bytes: it must be refused and leave the file byte-identical.")
 ASSUMPTIONS = [
-    "a bytes key/value that is valid UTF-8 comes back as str (documented decoding); comparison is on the UTF-8 bytes",
+    "a bytes key/value that is valid UTF-8 comes back as str (documented decoding, pinned by the repository's own test)",
     "the keys 'pandas' and 'PANDAS_ATTRS' belong to the library and are not used as user keys",
 ]
 MANIFEST = {
